@@ -7,4 +7,7 @@ open Distill.Gen
 theorem fam6_cells : ∀ c ∈ allCells, cellOk fam6 c.1 c.2 = true := by
   decide +kernel
 
+theorem fam6_bare : ∀ n ∈ allN, bareOk fam6 n = true := by
+  decide +kernel
+
 end Distill.C17
